@@ -559,6 +559,12 @@ func genSpecOnce(r *mon.Rand) *Spec {
 	nElems := r.Range(1, 3)
 	for e := 0; e < nElems; e++ {
 		last := e == nElems-1
+		if !chain && r.Prob(0.12) {
+			// a pass-through node between concretely typed producers and interface-typed / conflicting
+			// consumers (launder_test.go); it ends the construction (the number of calls is bounded)
+			curNode, cur = g.launderBlock(curNode, cur, true)
+			break
+		}
 		x := r.Float()
 		if wf && curNode == START && x >= 0.45 && x < 0.90 {
 			// a workflow branch on START gives the workflow no start node ("start node not
